@@ -31,8 +31,8 @@ import nlx
 RULE = ('seeded designs = gen_designs.make_design + C04 structure (const exprs, one-const 1-bit gates, '
         'swapped-argument duplicates of & | ^ nand + * == - < > concat mux, duplicated Const objects, '
         'registers of constants and chains of them, write-only memory logic, dead logic, w / full-slice chains) '
-        'plus 14 directed witnesses (multi-bit constant nand, duplicate constant memory writes, swapped non-commutative ops, '
-        'memory writes with constant data / constant enables read back, duplicated sub-expressions consumed by nets reading them in several argument positions, Inputs whose whole fan-out is dead, RomBlocks of every construction form (list / dict / function, partial, pad_with_zeros) read beyond their data, 1-bit identity-element folds driving Outputs directly (raw nets and after direct_connect_outputs), '
+        'plus 18 directed witnesses (multi-bit constant nand, duplicate constant memory writes, swapped non-commutative ops, '
+        'memory writes with constant data / constant enables read back, duplicated sub-expressions consumed by nets reading them in several argument positions, Inputs whose whole fan-out is dead, RomBlocks of every construction form (list / dict / function, partial, pad_with_zeros) read beyond their data, comparisons against constants on either side with Input / Register / wire left operands (1 bit included, API and raw nets), strided / reversed / repeated-index slices of Consts, several distinct memories sharing one user-given name and shape, 1-bit identity-element folds driving Outputs directly (raw nets and after direct_connect_outputs), '
         'same-width permuting selects next to identity slices, word-level & | ^ nand against 0 / all-ones / middle constants) with fixed distinguishing stimulus; x form {word, synth, nand, aig} x pass {optimize, constant_propagation, '
         'common_subexp_elimination, _remove_wire_nets, _remove_slice_nets, _remove_unlistened_nets} x '
         'applications {1, 2}; plus, on every word-level design, every documented calling convention of optimize() (block= given / omitted, '
@@ -165,6 +165,10 @@ def extend_design(rng, d, heavy, maxw=8):
         v = gen_designs.boundary_value(rng, width) if v is None else v
         return pyrtl.Const(v, bitwidth=width)
 
+    def compare(op, a, b):
+        return {'<': lambda: a < b, '>': lambda: a > b, '==': lambda: a == b, '!=': lambda: a != b,
+                '<=': lambda: a <= b, '>=': lambda: a >= b}[op]()
+
     def binop(op, a, b):
         if op == '&':
             return a & b
@@ -191,7 +195,7 @@ def extend_design(rng, d, heavy, maxw=8):
         raise ValueError(op)
 
     kinds = ['constexpr', 'oneconst', 'swapdup', 'swapdup', 'samedup', 'constdup', 'regconst', 'dupselfuse',
-             'deadinput', 'romforms',
+             'deadinput', 'romforms', 'cmpconst', 'constslice', 'samenamemem',
              'memwrite', 'dead', 'chain', 'muxdup', 'constexpr', 'oneconst']
     n = rng.randint(5, 10) if heavy else rng.randint(2, 4)
     for _ in range(n):
@@ -229,6 +233,57 @@ def extend_design(rng, d, heavy, maxw=8):
                 outs.extend([t1, t2])
             else:
                 outs.append(pyrtl.concat(t1, t2))
+        elif k == 'cmpconst':
+            # comparisons against constants, constant on either side, left operand an Input,
+            # a Register or a plain wire, narrow widths (1 bit included)
+            w = wchoice([1, 1, 1, 2, 3])
+            lk = rng.choice(['input', 'register', 'wire'])
+            if lk == 'input':
+                x = pyrtl.Input(w, fresh('cin'))
+                d.inputs.append(x)
+            elif lk == 'register':
+                x = pyrtl.Register(w, fresh('cr'))
+                x.next <<= operand(w)
+                d.regs.append(x)
+            else:
+                x = operand(w) ^ operand(w)
+            for _k in range(rng.randint(1, 3)):
+                c = konst(w, rng.choice([0, (1 << w) - 1, rng.randrange(1 << w)]))
+                op = rng.choice(['<', '>', '==', '!=', '<=', '>='])
+                t = compare(op, x, c) if rng.random() < 0.6 else compare(op, c, x)
+                pool.append(t)
+                outs.append(t if rng.random() < 0.5 else t ^ operand(1))
+        elif k == 'constslice':
+            # strided / reversed / repeated-index / contiguous slices of a Const feeding further logic
+            w = wchoice([2, 3, 4, 6, 8])
+            key = konst(w)
+            sl = rng.choice([slice(None, None, -1), slice(None, None, 2), slice(1, None, 2), slice(None, None, -2),
+                             slice(1, None, None), slice(0, w - 1, None), slice(None, None, 3)])
+            if rng.random() < 0.25:
+                idx = tuple(rng.randrange(w) for _ in range(rng.randint(1, w)))
+                t = pyrtl.WireVector(len(idx), fresh('cs'))
+                block.add_net(pyrtl.LogicNet('s', idx, (key,), (t,)))
+            else:
+                t = key[sl]
+            u = binop(rng.choice('^&|+'), operand(len(t)), t)
+            pool.append(u)
+            outs.append(u)
+        elif k == 'samenamemem':
+            # a "component" with an internally named memory, instantiated several times:
+            # distinct memories sharing a user-given name and shape, with diverging contents
+            aw = rng.randint(1, 2)
+            bw = wchoice([2, 4])
+            nm = fresh('buf')
+            ra = operand(aw)
+            for _k in range(rng.randint(2, 3)):
+                m = pyrtl.MemBlock(bitwidth=bw, addrwidth=aw, name=nm, max_read_ports=None,
+                                   max_write_ports=None, asynchronous=True)
+                d.mems.append(m)
+                en = operand()
+                m[operand(aw)] <<= pyrtl.MemBlock.EnabledWrite(operand(bw) ^ konst(bw), en[rng.randrange(len(en))])
+                rd = pyrtl.as_wires(m[ra])
+                pool.append(rd)
+                outs.append(rd)
         elif k == 'deadinput':
             # an Input whose whole fan-out is unobservable (or that nobody reads at all)
             w = wchoice([1, 2, 4])
@@ -419,6 +474,74 @@ def directed(kind):
         d.stimulus = [{'wa': w, 'ra': r, 'en': e, 'di': (3 * w + 5) % 16}
                       for (w, r, e) in [(0, 0, 1), (1, 0, 0), (1, 1, 1), (2, 1, 1), (3, 2, 0), (3, 3, 1),
                                         (0, 3, 0), (0, 0, 0), (1, 1, 0), (2, 2, 0)]]
+    elif kind in ('cmp_consts_1', 'cmp_consts_2'):
+        # comparisons x constant position and value x left operand kind (Input, Register, plain
+        # wire), 1-bit or 2-bit, through the operator API and (1 bit) as raw nets, which fix the
+        # argument order
+        w = 1 if kind.endswith('1') else 2
+        xi = pyrtl.Input(w, 'xi')
+        d.inputs.append(xi)
+        xr = pyrtl.Register(w, 'xr')
+        xr.next <<= xi
+        d.regs.append(xr)
+        xw = ~xi
+        cnt = [0]
+        fs = {'<': lambda p, q: p < q, '>': lambda p, q: p > q, '==': lambda p, q: p == q,
+              '<=': lambda p, q: p <= q, '!=': lambda p, q: p != q}
+        for x in (xi, xr, xw):
+            for cv in sorted({0, 1, (1 << w) - 1}):
+                for op in ('<', '>', '=='):
+                    outs.append(fs[op](x, pyrtl.Const(cv, w)))
+                    outs.append(fs[op](pyrtl.Const(cv, w), x))
+                outs.append(fs['<='](x, pyrtl.Const(cv, w)))
+                outs.append(fs['!='](x, pyrtl.Const(cv, w)))
+                if w == 1:
+                    for ch in '<>=':
+                        for args in ((x, pyrtl.Const(cv, w)), (pyrtl.Const(cv, w), x)):
+                            cnt[0] += 1
+                            t = pyrtl.WireVector(1, 'rawcmp%d' % cnt[0])
+                            pyrtl.working_block().add_net(pyrtl.LogicNet(ch, None, args, (t,)))
+                            outs.append(t)
+        d.stimulus = [{'xi': (i * 3 + 1) % (1 << w)} for i in range(6)]
+    elif kind == 'const_slices':
+        # slices of Consts that are not one ascending run (reversed, strided, repeated indices)
+        # next to contiguous ones, each feeding further logic (a non-Output wire)
+        a = pyrtl.Input(8, 'a')
+        d.inputs.append(a)
+        cnt = [0]
+        for v, w in ((0b10110100, 8), (0b011010, 6), (0b101, 3), (0b1101, 4)):
+            key = pyrtl.Const(v, w)
+            for sl in (slice(None, None, -1), slice(None, None, 2), slice(1, None, 2), slice(None, None, -2),
+                       slice(2, None, None), slice(0, w - 1, None), slice(None, None, 3), slice(w - 1, None, None),
+                       slice(1, w - 1, None)):
+                t = key[sl]
+                outs.append(a[:len(t)] ^ t)
+            for idx in ((0, 0, 1), (w - 1, 0), (1, 0, 1, 0), tuple(reversed(range(w)))):
+                cnt[0] += 1
+                t = pyrtl.WireVector(len(idx), 'rawcs%d' % cnt[0])
+                pyrtl.working_block().add_net(pyrtl.LogicNet('s', idx, (key,), (t,)))
+                outs.append(a[:len(idx)] + t)
+        d.stimulus = [{'a': v} for v in (0, 255, 0xA5, 0x5A, 0x3C, 0x81)]
+    elif kind == 'samename_mems':
+        # three instances of a component whose internal memory has a fixed name: distinct memories,
+        # one name, one shape, written with different data and read back
+        wa = pyrtl.Input(2, 'wa')
+        ra = pyrtl.Input(2, 'ra')
+        di = pyrtl.Input(4, 'di')
+        en = pyrtl.Input(1, 'en')
+        d.inputs += [wa, ra, di, en]
+        for j in range(3):
+            m = pyrtl.MemBlock(4, 2, 'fifo_buf', max_read_ports=None, max_write_ports=None, asynchronous=True)
+            d.mems.append(m)
+            m[wa] <<= pyrtl.MemBlock.EnabledWrite((di + pyrtl.Const(3 * j + 1, 4))[:4], en)
+            outs.append(pyrtl.as_wires(m[ra]))
+        rom_a = pyrtl.RomBlock(4, 2, [1, 2, 3, 4], name='lut', max_read_ports=None, asynchronous=True)
+        rom_b = pyrtl.RomBlock(4, 2, [9, 8, 7, 6], name='lut', max_read_ports=None, asynchronous=True)
+        d.roms += [rom_a, rom_b]
+        outs += [pyrtl.as_wires(rom_a[ra]), pyrtl.as_wires(rom_b[ra])]
+        d.meminit = lambda adr: adr + 1
+        d.stimulus = [{'wa': i % 4, 'ra': (i + 3) % 4, 'di': (5 * i + 2) % 16, 'en': 1 if i % 3 else 0}
+                      for i in range(8)]
     elif kind == 'dead_inputs':
         # Inputs whose entire fan-out is dead (register nobody reads, dead wires, dead feedback
         # register, not read at all) next to live logic; the interface must not change
@@ -527,9 +650,10 @@ def directed(kind):
 
 DIRECTED = ['nand_const', 'memwr_dup', 'swap_noncomm', 'perm_selects',
             'wordconst_and', 'wordconst_or', 'wordconst_xor', 'wordconst_nand',
-            'memwr_consts', 'direct_out_raw', 'direct_out_dco', 'dup_selfuse', 'dead_inputs', 'rom_forms']
+            'memwr_consts', 'direct_out_raw', 'direct_out_dco', 'dup_selfuse', 'dead_inputs', 'rom_forms',
+            'cmp_consts_1', 'cmp_consts_2', 'const_slices', 'samename_mems']
 # gate-level forms of the word-constant witnesses are large and contain only 1-bit gates
-DIRECTED_FORMS = {k: (['word'] if k.startswith(('wordconst_', 'direct_out_', 'dup_selfuse', 'rom_forms')) else ['word', 'synth'])
+DIRECTED_FORMS = {k: (['word'] if k.startswith(('wordconst_', 'direct_out_', 'dup_selfuse', 'rom_forms', 'cmp_consts', 'const_slices', 'samename_mems')) else ['word', 'synth'])
                   for k in DIRECTED}
 
 
@@ -858,11 +982,12 @@ def call_optimize(ctx, i, target, give, uwb, foreign, skip):
 
 
 def state_by_name(block, regmap, memmap):
-    """the same initial state, addressed through the (possibly copied) block's own objects"""
+    """the same initial state, addressed through the (possibly copied) block's own objects:
+    registers by name, memories by memid (memory names need not be unique; a copy keeps the ids)"""
     regs = {r.name: r for r in block.wirevector_subset(pyrtl.Register)}
-    mems = {m.name: m for m in block_mems(block)}
+    mems = {m.id: m for m in block_mems(block)}
     return ({regs[r.name]: v for r, v in regmap.items() if r.name in regs},
-            {mems[m.name]: c for m, c in memmap.items() if m.name in mems})
+            {mems[m.id]: c for m, c in memmap.items() if m.id in mems})
 
 
 def run(ctx):
@@ -935,7 +1060,7 @@ def run(ctx):
             case = dict(i=i, form=form, names=names, out_names=out_names, in_names=in_names,
                         out_iface=sorted((w.name, w.bitwidth) for w in outs),
                         ncyc=ncyc, inputs=inputs, regmap={r.name: v for r, v in regmap.items()},
-                        memmap={m.name: c for m, c in memmap.items()}, steady=steady,
+                        memmap={'%s#%d' % (m.name, m.id): c for m, c in memmap.items()}, steady=steady,
                         orig_nets=orig_nets, orig_by_dest=orig_by_dest, nnets0=nnets0,
                         widths={w.name: w.bitwidth for w in dump.wires}, runs=[], block=block,
                         named={w.name for w in dump.wires
